@@ -38,6 +38,24 @@
 (* A memo that ignores several components is exposed by the neighbours of  *)
 (* any one of them, so single components suffice.                          *)
 (*                                                                         *)
+(* Errors are calls too.  A verification that is REFUSED because the       *)
+(* object has no canonical signed bytes (clause Unencodable of SigVerify:  *)
+(* extensions beyond 65535 bytes, an empty certificate, an undefined entry *)
+(* type) is refused part-way through building those bytes.  The second     *)
+(* family of non-functions modelled here is Residue: an implementation in  *)
+(* which what the refused call had already emitted stays behind (a pooled  *)
+(* output buffer returned without being reset, a scratch slice re-used)    *)
+(* and is taken up by the next call that builds signed bytes, which then   *)
+(* verifies over residue || canonical bytes: it rejects a valid object     *)
+(* (stale reject) and accepts a signature made over exactly those glued    *)
+(* bytes (stale accept).  Refusals enter a session in two ways: a call of  *)
+(* the session presenting its own object with one field unencodable, and   *)
+(* an Interlude - between two calls the same caller, with the same         *)
+(* verifiers, is asked about an unencodable object that has nothing to do  *)
+(* with the session (sessions about STHs have no unencodable presentation  *)
+(* of their own).  Both are refused with an error, and the calls after     *)
+(* them return what they return alone.                                     *)
+(*                                                                         *)
 (* Named clauses (the property text is silent, the library is definite):   *)
 (*   LeafTimestampAdjusted  ctutil.LogInfo.VerifySCTSignature is           *)
 (*       documented to check the SCT against "the given leaf (adjusted for *)
@@ -53,19 +71,20 @@ EXTENDS SigVerify, Sequences
 CONSTANT Depth   \* calls per session
 
 VARIABLES
-  base,     \* the session's object: [kind, key, hash] (signed once, by key <<key, 1>>, under hash)
+  base,     \* the session's object: [kind, key, hash, shape] (signed once, by key <<key, 1>>, under hash)
   last,     \* arguments and verdict of the previous call = what the caller's re-used objects hold (ArgsKept)
   hist,     \* the calls made, with the verdict of each
-  exposed   \* ghost: the coarse memos this history tells from the function
-hvars == <<base, last, hist, exposed>>
+  exposed,  \* ghost: the non-functions (coarse memos, Residue) this history tells from the function
+  residue   \* ghost: the step before was refused while the signed bytes were being built
+hvars == <<base, last, hist, exposed, residue>>
 
-NoBase == [kind |-> "none", key |-> "", hash |-> 0]
+NoBase == [kind |-> "none", key |-> "", hash |-> 0, shape |-> StdShape]
 NoLast == [args |-> <<>>, res |-> <<>>]
 
 (* ---------- calls ---------- *)
 \* a call presents the session's object after mutation `mut`, with the opt-in flag at `allow`; `rot` tells the
 \* harness with which entry point to begin (the order of entry points is part of the history)
-CaseOf(b, cl) == [kind |-> b.kind, key |-> b.key, hash |-> b.hash, mut |-> cl.mut, allow |-> cl.allow]
+CaseOf(b, cl) == [kind |-> b.kind, key |-> b.key, hash |-> b.hash, mut |-> cl.mut, allow |-> cl.allow, shape |-> b.shape]
 CallsOf(b) == {[mut |-> mu, allow |-> a] : mu \in Muts(b.kind, b.key, b.hash), a \in Allows(b.kind)}
 
 \* THE LAW.  What a call returns alone: the verdict of the verification proper and the verdict through a verifier
@@ -97,14 +116,27 @@ NewlyExposed(b, prev, args, res) ==
 \* components that can change on their own (a signed log list declares nothing: hash and scheme are implied,
 \* the scheme changes together with the key type)
 Independent(k) == Components(k) \ (IF ImpliedAlg(k) THEN {"hash", "sig", "keytype"} ELSE {})
-Required(k) == Independent(k) \X {"accept", "reject"}
+
+\* Residue: the call sees residue || canonical bytes when the step before was refused part-way.  It then rejects
+\* the object as signed and accepts the "glued" value (a signature over just those bytes) - where the function
+\* accepts the former and rejects the latter.  Only calls that build signed bytes can take residue up.
+Unencodables == UNION {{[kind |-> k, field |-> f] : f \in UnserFields(k)} : k \in Kinds}
+Glued == Mut("value", 0, "glued")
+ValidAlone(b, cl) == Alone(b, [cl EXCEPT !.mut = NoMut])[1] = "ok"
+ResidueExposed(b, cl, res) ==
+  IF ~(residue /\ Serializes(b.kind) /\ ValidAlone(b, cl)) THEN {}
+  ELSE IF cl.mut = NoMut THEN {<<"residue", "reject">>}
+  ELSE IF cl.mut = Glued /\ res[1] = "error" THEN {<<"residue", "accept">>}
+  ELSE {}
+Required(k) == (Independent(k) \X {"accept", "reject"})
+               \cup (IF Serializes(k) THEN {"residue"} \X {"accept", "reject"} ELSE {})
 
 (* ---------- behaviours ---------- *)
-HInit == base = NoBase /\ last = NoLast /\ hist = <<>> /\ exposed = {}
+HInit == base = NoBase /\ last = NoLast /\ hist = <<>> /\ exposed = {} /\ residue = FALSE
 
 Open(b) == /\ base = NoBase
            /\ base' = b
-           /\ UNCHANGED <<last, hist, exposed>>
+           /\ UNCHANGED <<last, hist, exposed, residue>>
 
 \* the caller rewrites its objects to present cl, calls, and finds them as presented (ArgsKept: last'.args is
 \* both what was handed in and what is there afterwards); the verdict is Alone (Function, DestFree: neither
@@ -115,11 +147,24 @@ Call(cl, rot) ==
          res == Alone(base, cl)
      IN /\ hist' = Append(hist, [call |-> cl, rot |-> rot, args |-> args, res |-> res])
         /\ last' = [args |-> args, res |-> res]
-        /\ exposed' = exposed \cup NewlyExposed(base, last, args, res)
+        /\ exposed' = exposed \cup NewlyExposed(base, last, args, res) \cup ResidueExposed(base, cl, res)
+        \* a call that builds signed bytes consumes what was left behind, and leaves something itself iff it is
+        \* refused while building them; a call that is handed the bytes neither takes residue up nor leaves any
+        /\ residue' = IF Serializes(base.kind) THEN cl.mut.m = "unser" ELSE residue
   /\ UNCHANGED base
 
-HNext == \/ \E k \in Kinds, kt \in KeyTypes : \E h \in ObjHashes(k) : Open([kind |-> k, key |-> kt, hash |-> h])
+\* Between two calls of the session the caller is asked about another, unencodable object `u` (objects of its own,
+\* the same goroutine, the same verifiers).  It is refused: clause Unencodable.  The session's objects are not touched.
+Interlude(u, rot) ==
+  /\ base # NoBase /\ u \in Unencodables
+  /\ hist' = Append(hist, [interlude |-> u, rot |-> rot, res |-> "error"])
+  /\ residue' = TRUE
+  /\ UNCHANGED <<base, last, exposed>>
+
+HNext == \/ \E k \in Kinds, kt \in KeyTypes : \E h \in ObjHashes(k), sh \in Shapes(k) :
+              Open([kind |-> k, key |-> kt, hash |-> h, shape |-> sh])
          \/ (base # NoBase /\ Len(hist) < Depth /\ \E cl \in CallsOf(base) : Call(cl, 0))
+         \/ (base # NoBase /\ Len(hist) < Depth /\ \E u \in Unencodables : Interlude(u, 0))
 
 (* ---------- the laws over a history ---------- *)
 IsCall(h) == "call" \in DOMAIN h
@@ -128,13 +173,18 @@ IsCall(h) == "call" \in DOMAIN h
 Newest == hist[Len(hist)]
 \* equal arguments, equal verdicts, wherever in the history
 Functional == Len(hist) > 0 /\ IsCall(Newest) =>
-                \A i \in 1..(Len(hist) - 1) : hist[i].args = Newest.args => hist[i].res = Newest.res
+                \A i \in 1..(Len(hist) - 1) : IsCall(hist[i]) /\ hist[i].args = Newest.args => hist[i].res = Newest.res
 \* every call, whatever preceded it, returns what it returns alone and satisfies the laws of the one-call table
 EachAlone == Len(hist) > 0 /\ IsCall(Newest) =>
                 /\ Newest.args = Args(base, Newest.call)
                 /\ Newest.res = Alone(base, Newest.call)
                 /\ Law(CaseOf(base, Newest.call))
-\* the ghost names components of the session's object only
-ExposedSound == base # NoBase => exposed \subseteq (Components(base.kind) \X {"accept", "reject"})
-HistLaw == Functional /\ EachAlone /\ ExposedSound
+\* an interlude is refused, whatever preceded it
+IsInterlude(h) == "interlude" \in DOMAIN h
+InterludeRefused == Len(hist) > 0 /\ IsInterlude(Newest) => Newest.res = "error" /\ Newest.interlude \in Unencodables
+\* the ghost names components of the session's object only; Residue only where signed bytes are built
+ExposedSound == base # NoBase =>
+                  exposed \subseteq ((Components(base.kind) \cup (IF Serializes(base.kind) THEN {"residue"} ELSE {}))
+                                     \X {"accept", "reject"})
+HistLaw == Functional /\ EachAlone /\ InterludeRefused /\ ExposedSound
 =============================================================================
